@@ -264,6 +264,10 @@ def classify_denominator(pm, u, f, den, te):
             return "size>=1 (admissibility guards of C08-e / C09-c)"
         if s == "2":
             return "constant"
+        # a denominator made of integer-typed locals / parameters of the function (C declarations of the .pyx): sample counts
+        ct = (u.ctypes or {}).get(f.name if f is not None else "", {}) if hasattr(u, "ctypes") else {}
+        if names and all(n_ in ct and any(t_ in str(ct[n_]) for t_ in ("int", "Py_ssize_t", "long")) for n_ in names) and not chains:
+            return "size>=1 (integer sample counts; admissibility guards of C08-e / C09-c)"
     if f is not None and f.name == "evaluate":
         clipped = {"p_y", "p_y_x", "pi", "cluster_wise_estimates", "log_p_y_x", "N", "y_pred"}
         if names and names <= clipped | {"np", "N"} or (names & clipped and not (names - clipped - {"np", "k1", "k2", "k"})):
